@@ -24,6 +24,7 @@ var contents = map[string]string{
 	"T1":     "counter m_T1\n/./ {\n  m_T1++\n}\n",
 	"T2":     "counter m_T2\n/./ {\n  m_T2++\n}\n",
 	"broken": "counter m_broken\n/./ {\n",
+	"empty":  "", // a valid program: it compiles, runs and does nothing
 }
 
 type op struct {
@@ -77,6 +78,12 @@ func (m *model) apply(o op) bool {
 		m.files[o.g] = ct
 	case "mkdir":
 		if _, ok := m.files[o.f]; ok {
+			return false
+		}
+		m.files[o.f] = "dir"
+	case "todir":
+		// the file is replaced by a directory of the same name before the next reload request
+		if ct, ok := m.files[o.f]; !ok || ct == "dir" {
 			return false
 		}
 		m.files[o.f] = "dir"
@@ -147,6 +154,11 @@ func realApply(dir string, o op) error {
 		return os.Rename(filepath.Join(dir, o.f), filepath.Join(dir, o.g))
 	case "mkdir":
 		return os.Mkdir(filepath.Join(dir, o.f), 0o755)
+	case "todir":
+		if err := os.Remove(filepath.Join(dir, o.f)); err != nil {
+			return err
+		}
+		return os.Mkdir(filepath.Join(dir, o.f), 0o755)
 	}
 	return nil
 }
@@ -166,6 +178,7 @@ func mkConfig(c *vlib.Ctx, cname string, files []string, tags []string, depth in
 		op{kind: "rename", f: "a.mtail", g: ".h.mtail"},
 		op{kind: "mkdir", f: "d.mtail"},
 		op{kind: "mkdir", f: "a.mtail"},
+		op{kind: "todir", f: "a.mtail"},
 	)
 	names := make([]string, len(ops))
 	for i, o := range ops {
@@ -269,7 +282,9 @@ func mkConfig(c *vlib.Ctx, cname string, files []string, tags []string, depth in
 					}
 					want := map[string]int64{}
 					for n, t := range mo.running {
-						want[n+"/m_"+t] = 1
+						if t != "empty" { // the empty program has no marker
+							want[n+"/m_"+t] = 1
+						}
 					}
 					if fmt.Sprint(moved) != fmt.Sprint(want) {
 						viol("probe", fmt.Sprintf("the probe line moved counters %v, want %v (program/marker of the running versions)", moved, want))
@@ -306,7 +321,7 @@ func main() {
 	hsx.QuietGlog()
 	c := vlib.Init("model_checking")
 	files := []string{"a.mtail", "b.mtail", ".h.mtail", "notes.txt", "sub/c.mtail"}
-	tags := []string{"T1", "T2", "broken"}
+	tags := []string{"T1", "T2", "broken", "empty"}
 	var cfgs []hsx.Config
 	if c.Quick() {
 		cfgs = append(cfgs,
@@ -323,5 +338,5 @@ func main() {
 		"every file operation is followed by a reload request (LoadAllPrograms called directly, as the SIGHUP handler does) and one probe line, under the default schedule with quiescence barriers",
 		"files are regular files or directories on tmpfs; symlinks, unreadable files and concurrent modification during a scan are not generated",
 	}
-	hsx.Explore(c, "explicit-state BFS over histories of {write(file, contents in {T1, T2, broken}), remove(file), rename to/from another program name, a non-.mtail name and a dot-name, mkdir of a matching name} on a real directory holding a.mtail, b.mtail, .h.mtail, notes.txt, sub/c.mtail, each step followed by LoadAllPrograms and a probe line; per transition the running set with the contents each program was compiled from equals the model (eligible = non-hidden .mtail regular file directly in the directory; running = last contents compiled successfully since the file was added), the probe line moves exactly the marker counter of each running version, and prog_loads_total / prog_unloads_total moved by the model's event counts", cfgs...)
+	hsx.Explore(c, "explicit-state BFS over histories of {write(file, contents in {T1, T2, does not compile, empty file}), remove(file), rename to/from another program name, a non-.mtail name and a dot-name, mkdir of a matching name, a program file replaced by a directory of its name} on a real directory holding a.mtail, b.mtail, .h.mtail, notes.txt, sub/c.mtail, each step followed by LoadAllPrograms and a probe line; per transition the running set with the contents each program was compiled from equals the model (eligible = non-hidden .mtail regular file directly in the directory; running = last contents compiled successfully since the file was added), the probe line moves exactly the marker counter of each running version, and prog_loads_total / prog_unloads_total moved by the model's event counts", cfgs...)
 }
